@@ -47,6 +47,9 @@ type LateW struct {
 // first one left behind, e.g. the channel installed by a Broadcast).
 type Plan struct {
 	Rounds []Round `json:"rounds"`
+	// ByValue: the cond lives inside another struct, stored by value right after construction and before its
+	// first use (`q.cond = *xsync.NewContextCond(&q.mu)`), and is used through the address of that field
+	ByValue bool `json:"by_value,omitempty"`
 }
 
 func genPlan(t *rapid.T) Plan {
@@ -54,6 +57,7 @@ func genPlan(t *rapid.T) Plan {
 	for r := rapid.IntRange(1, 2).Draw(t, "rounds"); r > 0; r-- {
 		pl.Rounds = append(pl.Rounds, genRound(t))
 	}
+	pl.ByValue = rapid.IntRange(0, 3).Draw(t, "byvalue") == 0
 	return pl
 }
 
@@ -164,6 +168,14 @@ func run(pl Plan) (out vk.Outcome, verr error) {
 			}()
 			l := &gatedLocker{owner: -1, armed: map[int]chan struct{}{}, mu: make(chan struct{}, 1)}
 			c := xsync.NewContextCond(l)
+			if pl.ByValue {
+				holder := new(struct {
+					pad  [3]int
+					cond xsync.ContextCond
+				})
+				holder.cond = *c //nolint:govet // copied before its first use, like a sync.Cond may be
+				c = &holder.cond
+			}
 			everSignalled := false // a Signal without a taker leaves a remembered token behind, also for later rounds
 			for ri, p := range pl.Rounds {
 				if verr = script(l, c, p, &out, &everSignalled); verr != nil {
